@@ -28,10 +28,11 @@ const (
 	rcOpNext
 	rcOpUncacheA
 	rcOpDirectDenied
+	rcOpDirectACancel // Direct(cidA) under a context the harness cancels while the call waits for the consumer
 	rcNumOps
 )
 
-var rcOpNames = []string{"Close", "Direct(cidA)", "Direct(cidB)", "Next", "Uncache(cidA)", "Direct(denied)"}
+var rcOpNames = []string{"Close", "Direct(cidA)", "Direct(cidB)", "Next", "Uncache(cidA)", "Direct(denied)", "Direct(cidA,cancellable)"}
 
 type rcCall struct {
 	task     int
@@ -44,6 +45,9 @@ type rcCall struct {
 	end      int64
 	// model expectation
 	mayBlock bool
+	// cancellable Direct
+	cancel    context.CancelFunc
+	cancelled bool
 }
 
 type rcModel struct {
@@ -153,6 +157,11 @@ func runC16(r *simkit.Run, c Cfg) {
 					call.err = rc.Direct(bg, cidA, peer.AddrInfo{ID: allowed.ID})
 				case rcOpDirectB:
 					call.err = rc.Direct(bg, cidB, peer.AddrInfo{ID: allowed.ID})
+				case rcOpDirectACancel:
+					var cctx context.Context
+					cctx, call.cancel = context.WithCancel(bg)
+					call.err = rc.Direct(cctx, cidA, peer.AddrInfo{ID: allowed.ID})
+					call.cancel()
 				case rcOpDirectDenied:
 					call.err = rc.Direct(bg, cidB, peer.AddrInfo{ID: denied.ID})
 				case rcOpNext:
@@ -209,7 +218,7 @@ func runC16(r *simkit.Run, c Cfg) {
 				}
 				m.senders, m.recvs = nil, nil
 			}
-		case rcOpDirectA:
+		case rcOpDirectA, rcOpDirectACancel:
 			deliver(cidA)
 		case rcOpDirectB:
 			deliver(cidB)
@@ -229,7 +238,7 @@ func runC16(r *simkit.Run, c Cfg) {
 					m.senders = m.senders[1:]
 					s.mayBlock = false
 					switch s.op {
-					case rcOpDirectA:
+					case rcOpDirectA, rcOpDirectACancel:
 						m.buf = append(m.buf, cidA)
 					default:
 						m.buf = append(m.buf, cidB)
@@ -279,7 +288,16 @@ func runC16(r *simkit.Run, c Cfg) {
 			break
 		}
 		en := r.Enabled()
-		if len(en) == 0 {
+		// a cancellable Direct that waits for the consumer may be cancelled
+		var cancellable []*rcCall
+		if c.Case < 0 {
+			for _, call := range order {
+				if call.op == rcOpDirectACancel && call.started && !call.returned && call.mayBlock && !call.cancelled {
+					cancellable = append(cancellable, call)
+				}
+			}
+		}
+		if len(en)+len(cancellable) == 0 {
 			break
 		}
 		inflight := 0
@@ -308,7 +326,36 @@ func runC16(r *simkit.Run, c Cfg) {
 			}
 			next++
 		} else {
-			pick = en[tp.Choose(len(en), "sched")]
+			k := tp.Choose(len(en)+len(cancellable), "sched")
+			if k >= len(en) {
+				// The caller gives up: its call returns the context's
+				// error, and the announcement it could not hand over is
+				// as if it had never been made - the receiver has not
+				// "seen" that CID, a later announcement of it is delivered.
+				call := cancellable[k-len(en)]
+				call.cancelled = true
+				call.mayBlock = false
+				for i, s := range m.senders {
+					if s == call {
+						m.senders = append(m.senders[:i:i], m.senders[i+1:]...)
+						break
+					}
+				}
+				delete(m.seen, cidA.String())
+				r.Fault("direct-cancelled-while-waiting")
+				r.Logf("~sched", "cancel T%d's blocked %s", call.task, rcOpNames[call.op])
+				call.cancel()
+				r.Quiesce()
+				if call.returned && !errors.Is(call.err, context.Canceled) {
+					r.Violate("c16.result", "cancelled Direct returned %v, want the context's error", call.err)
+				}
+				check()
+				if r.Failed() {
+					break
+				}
+				continue
+			}
+			pick = en[k]
 		}
 		var ti int
 		fmt.Sscanf(pick.Who, "T%d", &ti)
@@ -329,7 +376,7 @@ func runC16(r *simkit.Run, c Cfg) {
 				if call.err != nil {
 					r.Violate("c16.result", "Close returned %v", call.err)
 				}
-			case rcOpDirectA, rcOpDirectB, rcOpDirectDenied:
+			case rcOpDirectA, rcOpDirectB, rcOpDirectDenied, rcOpDirectACancel:
 				// (also an announcement from a peer the allow filter rejects:
 				// on a closed receiver it gets the closed error like any other)
 				if wasClosed && !errors.Is(call.err, announce.ErrClosed) {
@@ -360,7 +407,10 @@ func runC16(r *simkit.Run, c Cfg) {
 	for _, call := range order {
 		if call.returned && call.end > call.start && m.closed {
 			switch call.op {
-			case rcOpDirectA, rcOpDirectB:
+			case rcOpDirectA, rcOpDirectB, rcOpDirectACancel:
+				if call.cancelled {
+					break
+				}
 				if call.err != nil && !errors.Is(call.err, announce.ErrClosed) {
 					r.Violate("c16.result", "blocked Direct woke with %v", call.err)
 				}
